@@ -31,7 +31,7 @@ fn canonical(m: &ModelDef) -> Vec<(String, Vec<(String, String)>)> {
 /// one layout variant drawn from the layout grammar
 fn layout(rng: &mut Rng, secs: &[(String, Vec<(String, String)>)], wild: bool) -> String {
     let mut s = String::new();
-    let junk = |rng: &mut Rng, s: &mut String| { match rng.below(6) { 0 => s.push('\n'), 1 => s.push_str("# a comment line\n"), 2 => s.push_str("; another comment\n"), 3 => s.push_str("   \n"), _ => {} } };
+    let junk = |rng: &mut Rng, s: &mut String| { match rng.below(6) { 0 => s.push('\n'), 1 => s.push_str(*rng.pick(&["# a comment line\n", "# r = x, y  # not a definition\n", "#\n"])), 2 => s.push_str("; another comment\n"), 3 => s.push_str("   \n"), _ => {} } };
     if wild { junk(rng, &mut s); }
     for (name, kvs) in secs {
         if wild { junk(rng, &mut s); }
@@ -47,7 +47,7 @@ fn layout(rng: &mut Rng, secs: &[(String, Vec<(String, String)>)], wild: bool) -
                 let pieces: Vec<&str> = val.split(" && ").collect();
                 if pieces.len() > 1 { val = pieces.join(" && \\\n      "); }
             }
-            let trailing = if wild && name != "matchers" && name != "policy_effect" && rng.chance(1, 3) { "   # trailing comment" } else { "" };
+            let trailing = if wild && name != "matchers" && name != "policy_effect" && rng.chance(1, 3) { *rng.pick(&["   # trailing comment", " # see issue #12", "  ## note", " #", " # a = b, c # d"]) } else { "" };
             s.push_str(&format!("{}{}{}{}{}\n", lead, k, eq, val, trailing));
         }
     }
